@@ -115,6 +115,9 @@ func deref(v reflect.Value) reflect.Value {
 // open watch stream. A reflector whose LIST or WATCH failed reconnects after its
 // own back-off; until then the caches are behind and the world is not at rest.
 func (w *World) connected() bool {
+	if w.ConnectedHook != nil && !w.ConnectedHook() {
+		return false
+	}
 	p := w.Proc
 	if p == nil || p.DynInformers == nil {
 		return true
